@@ -37,6 +37,9 @@ def mutual_information(
     ndarray[FIELD_t, ndim=2, mode='c'] anomaly not None,
     int n_samples, int N, int n_bins, float scaling, float range_min):
 
+    if n_bins < 1:
+        raise ValueError("n_bins must be a positive integer.")
+
     cdef:
         ndarray[INT64TYPE_t, ndim=2, mode='c'] symbolic = np.zeros(
             (N, n_samples), dtype=INT64TYPE)
